@@ -61,7 +61,7 @@ def cases():
     return out
 
 
-def check_duplicates_on_every_edge(ctx, transformations):
+def check_duplicates_on_every_edge(ctx, transformations, same_structure):
     import pytato as pt
     from pytato.transform import CopyMapper
     n = bad = 0
@@ -88,7 +88,8 @@ def check_duplicates_on_every_edge(ctx, transformations):
                    f"a {kind} whose child on edge {label} is an equal copy of another output ({order}): deduplicate "
                    f"raises {type(e).__name__}: {e}", extra)
             continue
-        if not (d1 == g):
+        # (reflective comparison: a data wrapper rebuilt around the same buffer is not `==` its original)
+        if not (d1 == g) and not same_structure(d1, g):
             report(f"transform:deduplicate:changes-the-graph:{ecls}", f"{kind}/{label}/{order}: result != argument", extra)
             continue
         v = heapser.view(d1)
